@@ -34,6 +34,7 @@ M("C01", "M01-1-save_metas", dict(
 M("C01", "M01-1-commit-task", dict(
     root=SU + r"schedule_commit::\{closure#0\}$", depth=3, unroll=2,
     inline=[r"SegmentUpdater::save_metas$", r"segment_updater::save_metas$"],
+    native=[("between", "atomic_write:meta.json", "sync_directory"), ("fault", "sync_directory", ["atomic_write:meta.json"])],
     events=ev(purge={"call": r"SegmentUpdater::purge_deletes$"},
               mgr_commit={"call": r"SegmentManager::commit$"},
               save={"call": r"SegmentUpdater::save_metas$", "even_inlined": True},
@@ -52,6 +53,8 @@ M("C01", "M01-1-commit-task", dict(
 M("C01", "M01-3-end_merge", dict(
     root=SU + r"end_merge::\{closure#1\}$", depth=3, unroll=2,
     inline=[r"SegmentUpdater::save_metas$", r"segment_updater::save_metas$"],
+    native=[("between", "atomic_write:meta.json", "sync_directory"), ("fault", "sync_directory", ["atomic_write:meta.json"])],
+    
     events=ev(adv={"call": r"index_writer::advance_deletes$"},
               mgr_end={"call": r"SegmentManager::end_merge$"},
               gc={"call": r"segment_updater::garbage_collect_files$"}),
@@ -411,3 +414,35 @@ M("C02", "M02-1b-delete-callback", dict(
     checks=[("last_is", "is_deleted", "remove", True), ("reach", "remove")]),
   title="a matching document is removed from the alive set only on the `is_deleted(doc, op.opstamp) == true` branch",
   functions=["compute_deleted_bitset::{closure#0}"], bounds="unroll 2")
+
+M("C10", "M10-7-reader-window", dict(
+    root=r"^reader::" + I + r"::open_segment_readers$", depth=1, unroll=2, inline=[],
+    native=[("on_thread_window", "acquire_lock:.tantivy-meta.lock", "release_lock:.tantivy-meta.lock",
+             ["open_read:.term", "open_read:.idx", "open_read:.pos", "open_read:.store", "open_read:.fast"], "main")],
+    events=EV_READER,
+    checks=[("held_during", "lock", ["release", "release_move"], ["read_meta", "open"]),
+            ("not_after_fail", "lock", "open")]),
+  title="the other side of the GC window: a loading reader holds META_LOCK from reading meta.json until every segment file is open, so GC (which takes the same lock) cannot delete a file in between",
+  functions=["InnerIndexReader::open_segment_readers"], bounds="")
+
+# =============================================================================================
+# C06 pruning may only rely on block-max metadata that exists
+# =============================================================================================
+M("C06", "M06-1-single-term-pruning-guard", dict(
+    root=r"^query::term_query::term_weight::" + I + r"::for_each_pruning$", depth=1, unroll=2, inline=[], auto_inline=False,
+    native=[("api_ok", "top1_basic_multivalued")], absent_ok_events=["freq_check"],
+    events={"freq_check": {"call": r"TermScorer::freq_reading_option$"},
+            "wand": {"call": r"block_wand_union::block_wand_single_scorer$"},
+            "ret": {"ret": True}},
+    checks=[("precedes", "freq_check", "wand")]),
+  title="single-term top-K: block-max pruning (block_wand_single_scorer) is only entered after checking that the postings carry term frequencies - block-max metadata is written only then (the union / intersection paths make the same check)",
+  functions=["TermWeight::for_each_pruning"], bounds="")
+
+M("C06", "M06-2-union-pruning-guard", dict(
+    root=r"^query::boolean_query::boolean_weight::scorer_union$", depth=1, unroll=2, inline=[], auto_inline=False,
+    events={"all_readfreq": {"call": r"slice::Iter<'_, query::term_query::term_scorer::TermScorer> as std::iter::Iterator>::all"},
+            "term_union": {"stmt": r"SpecializedScorer::(<.*>::)?TermUnion\("},
+            "ret": {"ret": True}},
+    checks=[("last_is", "all_readfreq", "term_union", True), ("reach", "term_union")]),
+  title="union top-K: the block-WAND union is only built on the `all scorers read frequencies` branch",
+  functions=["boolean_weight::scorer_union"], bounds="")
